@@ -91,6 +91,12 @@ CONF = {
         "tiers": tiers(8, 400, 16, 12000, gomaxprocs=[4, 2, 8, 1]),
         "require_classes": ["refresh:autort", "refresh:autoinj", "refresh:manual", "refresh:none", "done-inside-history", "late-add", "late-write", "late-proxy", "n>q", "call-lost-race-with-done"],
     },
+    "C14": {
+        "rule": "cases = programs with the cancel event (context cancel or Shutdown) (a) as a step anywhere in a sequential program, (b) inside a concurrent phase of 1-3 client goroutines, (c) fired from inside a library hook point (flush of a bar, bar render, render begin/end, heap-manager request, width sent/collected, bar exit) at occurrence 1-12; all refresh modes, 1-6 bars with shutdown-listening decorators under 0-3 wrapper layers, notifier configured or not; non-trivial = the cancel lands after >=1 Add with >=1 listener and an unfinished bar (or inside the library); distinct by FNV-64 of the scenario JSON",
+        "assumptions": GO_ASSUME + SCHED_ASSUME + ["the set handed to the notifier is compared exactly only for clocked runs (frame model); otherwise it must be duplicate-free, inside the container and contain every bar that was still running and displayed", "hangs of runs that were never cancelled are left to C01"],
+        "tiers": tiers(8, 600, 16, 15000),
+        "require_classes": ["refresh:manual", "refresh:autoinj", "refresh:autort", "refresh:none", "cancel-step", "cancel-in-concurrent-phase", "cancel-inside:flush.bar", "cancel-inside:bar.render", "cancel-inside:wc.sent", "cancel-inside:bar.exit", "listeners", "notifier", "notifier-exact", "cancel-with-render-delay"],
+    },
     "C03": {
         "rule": "cases = sequential programs on auto-refreshing containers (render requests injected by the harness racing with the library's early refresh, or a real 1-3 ms ticker): 1-6 bars with on-complete/on-abort fillers and decorator wrapper stacks, removal on completion, aborts with and without drop, pop mode, queued successors, post-terminal updates, optional cancel/Shutdown; non-trivial = >=2 bars, >=1 completed bar in the last frame and >=1 aborted, removed, popped or replaced bar, and no render-cycle step after the last update (the last frame has to come from early refresh or the final render); distinct by FNV-64 of the scenario JSON",
         "assumptions": GO_ASSUME + SCHED_ASSUME + ["which bars remain is computed from the program by a reference end-state model (first terminal event wins; successor replaces; pop mode pops out; remove-on-complete / abort with drop removes); under cancel/Shutdown only shown rows are judged", "hangs are left to C01 (counted, not judged here)"],
